@@ -358,6 +358,21 @@ m("c18-const-input-flicker", "C18", H3INDEX,
   "(no control-flow edge inside the window: invisible to result comparison under an edge-level scheduler; only the "
   "write-trap on const inputs sees it)", "I2-const-input-write")
 
+m("c18-ftz-daz-left-on", "C18", "src/h3lib/lib/latLng.c",
+  """double H3_EXPORT(greatCircleDistanceRads)(const LatLng *a, const LatLng *b) {
+    double sinLat = sin((b->lat - a->lat) * 0.5);""",
+  """#if defined(__x86_64__)
+#include <xmmintrin.h>
+#endif
+double H3_EXPORT(greatCircleDistanceRads)(const LatLng *a, const LatLng *b) {
+#if defined(__x86_64__)
+    // "denormals are slow": flush-to-zero / denormals-are-zero switched on and never switched off again
+    _mm_setcsr(_mm_getcsr() | 0x8040);
+#endif
+    double sinLat = sin((b->lat - a->lat) * 0.5);""",
+  "greatCircleDistanceRads: enables FTZ/DAZ in the thread's MXCSR and leaves it on (every later floating-point "
+  "computation of the calling thread changes for denormal values; rounding mode untouched)", "I6-ambient-state")
+
 m("c18-mutex-protected-cache", "C18", MATHX,
   """int64_t _ipow(int64_t base, int64_t exp) {
     int64_t result = 1;""",
